@@ -24,7 +24,7 @@ type c18Meta struct {
 	Baseline string      `json:"baseline"` // bytes a plain run writes
 }
 
-var c18Spellings = []string{"rel-root", "abs", "dot-rel", "pkg-dir", "gofile-only", "gofile-and-arg", "gofile-pkg-dir"}
+var c18Spellings = []string{"rel-root", "abs", "dot-rel", "pkg-dir", "gofile-only", "gofile-and-arg", "gofile-pkg-dir", "abs-outside", "gofile-abs-outside"}
 
 func c18Judge(env *hx.Env, files hx.Files, m c18Meta) hx.Verdict {
 	sc := m.Scenario
